@@ -27,7 +27,7 @@ def multi_term_with_take(case):
     union when another operand of its term is absent, so it is added although the term is absent.
     (take terms whose selected operand carries all ranks are computed correctly and stay in the search.)
     """
-    for e in case["spec"]["exprs"]:
+    for e in (case.get("spec") or {"exprs": []})["exprs"]:
         if len(e["terms"]) < 2:
             continue
         for t in e["terms"]:
@@ -48,7 +48,7 @@ def scalar_shared_with_take_term(case):
     factor bookkeeping by name, so the take term's 'not selected' flag drops the scalar from the other term's product
     (Z[] = take(alpha, A[i], 1) + alpha * B[i] * C[i] emits b_val * c_val) or an IndexError is raised.
     """
-    for e in case["spec"]["exprs"]:
+    for e in (case.get("spec") or {"exprs": []})["exprs"]:
         seen = {}
         for k, t in enumerate(e["terms"]):
             for v in set(S.term_scalars(t)):
@@ -195,4 +195,66 @@ def golden_spec(name):
     return load_spec(os.path.join(X.REPO, "tests/integration", name + ".yaml"))
 
 
-PARTS = [Main(), AllLoopOrders(), ModelSelfCheck()]
+class ModelLaws(Part):
+    """
+    Algebraic laws of the reference model itself (the trusted base of every execution check): a failure is a harness
+    error, not a violation.
+    """
+    name = "model-laws"
+    rule = ("drawn sparse tensors: swizzleRanks is a permutation of the coordinate map; splitUniform/splitEqual followed by "
+            "mergeRanks(absolute) is the identity (without halo); flattenRanks(tuple) then unflattenRanks is the identity; "
+            "a & b has exactly the common coordinates; a | b the union; populating an empty tensor from x gives x. "
+            "Non-trivial = the tensor has >= 2 elements.")
+
+    def budget(self, tier):
+        return {"quick": dict(examples=150, shards=1, seconds=40),
+                "thorough": dict(examples=3000, shards=2, seconds=300)}[tier]
+
+    def strategy(self, tier):
+        @st.composite
+        def strat(draw):
+            n = draw(st.integers(1, 3))
+            shape = [draw(st.integers(1, 5)) for _ in range(n)]
+            a = draw(gen.tensor_data(shape))
+            b = draw(gen.tensor_data(shape))
+            return {"shape": shape, "a": X.inputs_to_json({"a": a})["a"], "b": X.inputs_to_json({"b": b})["b"],
+                    "perm": list(draw(st.permutations(list(range(n))))), "step": draw(st.integers(1, 6)),
+                    "depth": draw(st.integers(0, n - 1))}
+        return strat()
+
+    def describe(self, case):
+        return case
+
+    def run_case(self, case):
+        from .. import hfmodel as M
+        ids = ["R%d" % i for i in range(len(case["shape"]))]
+        a = {tuple(c): v for c, v in case["a"]}
+        b = {tuple(c): v for c, v in case["b"]}
+        ta, tb = M.Tensor.fromDict(ids, a), M.Tensor.fromDict(ids, b)
+        perm = case["perm"]
+        sw = ta.swizzleRanks([ids[i] for i in perm])
+        assert sw.toDict() == {tuple(k[i] for i in perm): v for k, v in a.items()}, "swizzle"
+        assert ta.toDict() == a, "swizzle modified its argument"
+        d = case["depth"]
+        for split in (ta.splitUniform(case["step"], depth=d), ta.splitEqual(case["step"], depth=d)):
+            back = split.mergeRanks(depth=d, levels=1, coord_style="absolute")
+            assert back.toDict() == a, "split+merge"
+            for cs in split.toDict():
+                assert cs[d] <= cs[d + 1], "partition coordinate above its elements"
+        if len(ids) >= 2 and d + 1 < len(ids):
+            fl = ta.flattenRanks(depth=d, levels=1, coord_style="tuple")
+            assert fl.unflattenRanks(depth=d, levels=1).toDict() == a, "flatten+unflatten"
+        ra, rb = ta.getRoot(), tb.getRoot()
+        ia = [c for c, _ in ra & rb]
+        assert ia == sorted(set(ra.d) & set(rb.d)), "intersection"
+        ua = [c for c, _ in ra | rb]
+        assert ua == sorted(set(ra.d) | set(rb.d)), "union"
+        if len(ids) == 1:
+            z = M.Tensor(rank_ids=ids)
+            for c, (zr, p) in z.getRoot() << ra:
+                zr += p
+            assert z.toDict() == a, "populate"
+        return {"nontrivial": len(a) >= 2, "classes": ["ranks=%d" % len(ids)]}
+
+
+PARTS = [Main(), AllLoopOrders(), ModelSelfCheck(), ModelLaws()]
